@@ -1235,6 +1235,21 @@ class OpaqueVal(SymObj):
     def py_truth(self, I):
         return I.fresh("opaque_truth", z3.BoolSort())
 
+    def py_hasattr(self, I, name):
+        return I.fresh("opaque_hasattr", z3.BoolSort())
+
+    def py_getattr(self, I, name):
+        return OpaqueVal(f"{self.what}.{name}")
+
+    def py_isinstance(self, I, cls):
+        return I.fresh("opaque_isinstance", z3.BoolSort())
+
+    def py_is(self, I, other):
+        return I.fresh("opaque_is", z3.BoolSort())
+
+    def py_eq(self, I, other):
+        return I.fresh("opaque_eq", z3.BoolSort())
+
     def __repr__(self):
         return f"<opaque {self.what}>"
 
